@@ -126,7 +126,7 @@ Qed.
 Lemma step_rw st i : rw_inv st -> rw_input i -> rw_inv (fst (step st i)).
 Proof.
   intros H Hi. unfold step. destruct (SctpState_eqb (r_conn st) SctpState_Closed); [exact H|].
-  destruct i as [c|t|t hc|valid| |n pairs|sid|]; cbn in Hi; try contradiction.
+  destruct i as [c|t|t hc|valid| |n pairs|sid| |v]; cbn in Hi; try contradiction.
   - apply recv_data_rw; assumption.
   - destruct (connected st); exact H.
   - destruct (connected st); exact H.
@@ -134,6 +134,8 @@ Proof.
   - unfold establish. destruct (on_established _). exact H.
   - destruct (close_channel (r_app st) sid). exact H.
   - destruct (teardown _). exact H.
+  - destruct (handle_reconfig_frame st v) as [(_ & _ & Hq & Hu & _) _]. destruct H as (H1 & H2 & H3).
+    unfold rw_inv. rewrite Hq, Hu. repeat split; assumption.
 Qed.
 
 Theorem rwnd_accounting h : forall st, rw_inv st -> Forall rw_input h -> rw_inv (fst (run st h)).
@@ -143,7 +145,7 @@ Proof.
   specialize (IH st1 H1 ltac:(assumption)). destruct (run st1 h) as [st2 e2]. exact IH.
 Qed.
 
-Lemma rw_inv_fresh conn cum a : rw_inv (mkR conn cum [] a 0).
+Lemma rw_inv_fresh conn cum a p : rw_inv (mkR conn cum [] a 0 p).
 Proof. repeat split; [constructor|constructor]. Qed.
 
 (* an empty queue advertises the configured window *)
